@@ -28,6 +28,12 @@ def place_markers(rng, p):
                 part["msg_attrs"].append((k, f"verif_mark({m})"))
                 has_type = k != "reply" and (k in KINDS_ENUM or (part["id"] == "c" and any(h["kind"] == k for h in part["handlers"])))
                 exp[m] = ("type", prefix + MSG_OF[k]) if has_type else ("nowhere",)
+        # real derives whose names are contained in names of the built-in derive block (Eq in PartialEq, ..)
+        for k in KINDS_ENUM:
+            if rng.random() < 0.3:
+                dv = rng.choice(["derive(Eq)", "derive(Hash)", "derive(Eq, Hash)", "derive(PartialOrd)", "derive(Partial)", "derive(Schema)", "derive(Serialize2)"])
+                part["msg_attrs"].append((k, dv))
+                exp[("derive", part["id"], k)] = ("derive", prefix + MSG_OF[k], dv)
         rng.shuffle(part["msg_attrs"])
         for h in part["handlers"]:
             if h["kind"] in KINDS_ENUM:
@@ -61,6 +67,8 @@ def find_markers(view):
                 found.setdefault(int(m), []).append(loc)
     for it in view:
         if it["k"] == "enum":
+            for a in it["attrs"]:
+                found.setdefault(("derive-text", it["name"], re.sub(r"\s+", "", a).replace(",", ", ")), []).append(("type", it["name"]))
             scan(it["attrs"], ("type", it["name"]))
             for v in it["variants"]:
                 scan(v["attrs"], ("variant", it["name"], v["name"]))
@@ -108,6 +116,15 @@ def structure(ctx):
             ctx.ev()
             got = found.get(m, [])
             d = {"program": key, "marker": m, "expected": want, "found": got}
+            if want[0] == "derive":
+                got = found.get(("derive-text", want[1], want[2]), [])
+                d["found"] = got
+                if len(got) != 1:
+                    ctx.violate("misplaced:derive", f"{key}: forwarded `{want[2]}` appears {len(got)} times on {want[1]}", d)
+                else:
+                    ctx.nontrivial([key, str(m), want])
+                    ctx.count("markers_derive")
+                continue
             if want == ("nowhere",):
                 if got:
                     ctx.violate("attr-for-typeless-kind-placed", f"{key}: attribute forwarded to a kind without a message type appears at {got}", d)
@@ -139,13 +156,31 @@ def effect_prog(ctx, r, p):
     deny = set(map(tuple, eff["deny"]))
     alias = dict(eff["alias"])
     dflt = set(map(tuple, eff["default"]))
+    upper = set(map(tuple, eff.get("upper", [])))
     for h in handlers(p):
         texts = draw_args(rng, p, h)
         ct = canon_args(canon, p, h, texts)
-        body = body_text(h, ct)
+        up = (h["part"], h["kind"]) in upper
+        akey = (lambda x: T.arg_key(x).upper()) if up else T.arg_key
+        body = "{" + ",".join(dumps(akey(a)) + ":" + c for a, c in zip(h["args"], ct)) + "}"
         op = f"parse:{h['part']}:{h['kind']}"
         wrap = (lambda b, name=h["name"]: b) if h["kind"] in ("instantiate", "migrate") else (lambda b, name=T.wire_name(h["name"]): "{" + dumps(name) + ":" + b + "}")
-        # 1. unknown member inside the body
+        # 0. rename_all_fields forwarded to this message type: upper-case argument keys under the unchanged message name
+        if up:
+            o = r.call({"prog": pn, "op": op, "doc": wrap(body)})
+            ctx.ev()
+            d = {"prog": pn, "handler": h["hid"], "doc": wrap(body), "obs": o["res"]}
+            if "ok" not in o["res"] or T.variant_ident(h["name"]) + " " not in o["res"]["ok"]["debug"] + " ":
+                ctx.violate("rename_all_fields:not-effective", f"{pn} {h['hid']}: document with upper-case argument keys under the message name `{T.wire_name(h['name'])}` "
+                            f"is not accepted as that message: {str(o['res'])[:140]}", d)
+            else:
+                ctx.nontrivial([pn, h["hid"], "upper"])
+            mandatory = [a for a in h["args"] if p["types"][a["ti"]].kind != "option" and (h["hid"], a["name"]) not in dflt and T.arg_key(a).upper() != T.arg_key(a)]
+            if mandatory:
+                o = r.call({"prog": pn, "op": op, "doc": wrap(body_text(h, ct))})
+                ctx.ev()
+                if "ok" in o["res"]:
+                    ctx.violate("rename_all_fields:old-keys-accepted", f"{pn} {h['hid']}: lower-case argument keys still accepted", dict(d, doc=wrap(body_text(h, ct)), obs=o["res"]))
         extra = body[:-1] + ("," if h["args"] else "") + "\"zz_extra\":1}"
         o = r.call({"prog": pn, "op": op, "doc": wrap(extra)})
         ctx.ev()
@@ -176,7 +211,7 @@ def effect_prog(ctx, r, p):
                         ctx.nontrivial([pn, hid2, "alias"])
         # 3. default on arguments
         for i, a in enumerate(h["args"]):
-            rest = "{" + ",".join(dumps(T.arg_key(x)) + ":" + c for j, (x, c) in enumerate(zip(h["args"], ct)) if j != i) + "}"
+            rest = "{" + ",".join(dumps(akey(x)) + ":" + c for j, (x, c) in enumerate(zip(h["args"], ct)) if j != i) + "}"
             o = r.call({"prog": pn, "op": op, "doc": wrap(rest)})
             ctx.ev()
             acc = "ok" in o["res"]
